@@ -36,9 +36,10 @@ def main(argv: list[str] | None = None) -> int:
         mod.run(ctx)
         extra = {}
         if a.tier == "thorough" and not a.no_selftest and os.path.abspath(a.root) == "/repo":
-            from .selftest import run_corpus
+            from .selftest import run_corpus, run_variants
 
             extra = run_corpus(prop)
+            extra.update(run_variants(prop))
         return finish(ctx, t0, extra_coverage=extra)
     except AnalysisError as e:
         print(f"ANALYSIS-ERROR property={prop} {e}")
